@@ -146,7 +146,13 @@ def run_case(case, tier):
     else:
         recs, _ = sources.chimera(rng)
     recs = sources.no_hydrogens(recs)
-    if case["kind"] == "built" and rng.random() < 0.25:
+    if case["kind"] == "built" and rng.random() < 0.1:
+        # several models / alternate locations with mutants and missing residues: every conformation is completed
+        # with atoms of the others, and each of them gets its own hydrogens
+        from .. import multiconf
+        recs, _dm = multiconf.build(rng, base=recs)
+        classes.append("conformations-that-differ")
+    if case["kind"] == "built" and "conformations-that-differ" not in classes and rng.random() < 0.25:
         # a modified residue written as HETATM inside the chain (like MSE): its neighbours are
         # still regular residues with their chain neighbour present
         rl = sources.residue_list(recs)
